@@ -14,8 +14,9 @@ VARIABLES cur,      \* <<first,last>> current range
           side,     \* side[t] \in {"L","R"}
           exp,      \* expected range of t's CAS loop
           got,      \* got[t]: sequence of indices returned to t (-1 = empty)
-          nops
-vars == <<cur, pc, side, exp, got, nops>>
+          nops,
+          fresh     \* fresh[t]: exp[t] comes from the initial load (not from a failed CAS)
+vars == <<cur, pc, side, exp, got, nops, fresh>>
 
 Empty(r) == r[1] >= r[2]
 
@@ -25,6 +26,7 @@ Init == /\ cur = <<First, Last>>
         /\ exp = [t \in Thread |-> <<0, 0>>]
         /\ got = [t \in Thread |-> <<>>]
         /\ nops = [t \in Thread |-> 0]
+        /\ fresh = [t \in Thread |-> TRUE]
 
 Owner == CHOOSE t \in Thread : TRUE
 
@@ -35,24 +37,29 @@ Load(t) == /\ pc[t] = "idle" /\ nops[t] < MaxOps
            /\ exp' = [exp EXCEPT ![t] = cur]
            /\ pc' = [pc EXCEPT ![t] = "loaded"]
            /\ nops' = [nops EXCEPT ![t] = @ + 1]
+           /\ fresh' = [fresh EXCEPT ![t] = TRUE]
            /\ UNCHANGED <<cur, got>>
 
 \* the index pop_right hands out: the code returns desired.last = last - 1
 RightIndex(r) == IF "PopRightReturnsOldLast" \in Deviations THEN r[2] ELSE r[2] - 1
 
+\* Deviation "PopLeftChecksEmptyOnce": pop_left tests for emptiness only before its CAS loop, not after a
+\* failed CAS has refreshed the expected range (seeded change C11-2)
+ChecksEmpty(t) == ~("PopLeftChecksEmptyOnce" \in Deviations /\ side[t] = "L" /\ ~fresh[t])
 Step(t) ==
     /\ pc[t] = "loaded"
-    /\ IF Empty(exp[t])
+    /\ IF Empty(exp[t]) /\ ChecksEmpty(t)
           THEN /\ got' = [got EXCEPT ![t] = Append(@, -1)]
                /\ pc' = [pc EXCEPT ![t] = "idle"]
-               /\ UNCHANGED <<cur, exp>>
+               /\ UNCHANGED <<cur, exp, fresh>>
           ELSE IF cur = exp[t]
                   THEN /\ cur' = IF side[t] = "L" THEN <<cur[1] + 1, cur[2]>> ELSE <<cur[1], cur[2] - 1>>
                        /\ got' = [got EXCEPT ![t] =
                                      Append(@, IF side[t] = "L" THEN cur[1] ELSE RightIndex(cur))]
                        /\ pc' = [pc EXCEPT ![t] = "idle"]
-                       /\ UNCHANGED exp
+                       /\ UNCHANGED <<exp, fresh>>
                   ELSE /\ exp' = [exp EXCEPT ![t] = cur]       \* failed CAS reloads expected
+                       /\ fresh' = [fresh EXCEPT ![t] = FALSE]
                        /\ UNCHANGED <<cur, got, pc>>
     /\ UNCHANGED <<side, nops>>
 
